@@ -473,6 +473,36 @@ func enumBoundary(yield func(Case) bool) {
 	}
 }
 
+// a third box: multiplication (and percentage-of) over a wider value range
+// at the exponents money and rates actually use; multipliers that are not
+// dyadic fractions (1.005, 17.5%) only show up beyond the small box
+func enumMulBox(yield func(Case) bool) {
+	cfg := vh.Cfg()
+	k := int64(160)
+	if vh.Thorough() {
+		k = 1000
+	}
+	idx := 0
+	for av := -k; av <= k; av++ {
+		idx++
+		if idx%cfg.Shards != cfg.Shard {
+			continue
+		}
+		for bv := -k; bv <= k; bv++ {
+			for _, ae := range []uint32{0, 2} {
+				for _, be := range []uint32{1, 2, 3, 4} {
+					if !yield(Case{Op: "mul", AV: av, AE: ae, BV: bv, BE: be}) {
+						return
+					}
+					if !yield(Case{Op: "pct_of", AV: av, AE: ae, BV: bv, BE: be}) {
+						return
+					}
+				}
+			}
+		}
+	}
+}
+
 // ---------------------------------------------------------------------------
 // random search over the full stated domain
 
@@ -528,6 +558,33 @@ func genCase(t *rapid.T) Case {
 		la := rapid.IntRange(0, 51).Draw(t, "la")
 		c.AV = genBits(t, la, "a")
 		c.BV = genBits(t, 51-la, "b")
+		if mode != "free" && be >= 1 && rapid.Bool().Draw(t, "general_tie") {
+			// general tie: any multiplier b coprime to 10 (so not a dyadic
+			// fraction: 1.005, 0.175, 39.3 ...) and a = 5*10^(be-1) * b^-1 mod 10^be
+			mod := ratref.Pow10(int(be))
+			bb := genBits(t, 18, "gb")
+			if bb < 0 {
+				bb = -bb
+			}
+			bb |= 1
+			for bb%5 == 0 {
+				bb += 2
+			}
+			inv := new(big.Int).ModInverse(big.NewInt(bb), mod)
+			if inv != nil {
+				a0 := new(big.Int).Mul(inv, big.NewInt(5*pow10(int(be)-1)))
+				a0.Mod(a0, mod)
+				m := genBits(t, max(1, 30-bitsOfPow10(int(be))), "gm")
+				av := new(big.Int).Add(a0, new(big.Int).Mul(big.NewInt(m), mod))
+				if av.IsInt64() && ratref.Fits52(new(big.Int).Mul(av, big.NewInt(bb))) {
+					c.AV, c.BV = av.Int64()+adj, bb
+					if rapid.Bool().Draw(t, "gneg") {
+						c.BV = -c.BV
+					}
+					return c
+				}
+			}
+		}
 		if mode != "free" && be >= 1 {
 			// b = k*5*10^(be-1) with k odd, a odd  =>  a*b/10^be = a*k/2 is a tie
 			unit := 5 * pow10(int(be)-1)
@@ -622,11 +679,12 @@ func genCase(t *rapid.T) Case {
 
 func init() {
 	vh.Describe(
-		"Cases are (operation, operands, parameter). Exhaustive box: every value -K..K (K=12 quick, 60 thorough) at every exponent pair 0-9 for every binary operation, every target precision 0-12, every split count 1-12, plus digit patterns ...4/...5/...6 at every position; random: operands stratified by bit length up to 2^51 with ties / near-ties constructed for 50% of cases. Non-trivial: the exact result needed rounding (tie or not), or operands have different exponents, or an operand is negative, or precision is raised. Cases whose operands or exact intermediates exceed 2^52 units are discarded (outside the stated domain) and counted.",
+		"Cases are (operation, operands, parameter). Exhaustive box: every value -K..K (K=12 quick, 60 thorough) at every exponent pair 0-9 for every binary operation, every target precision 0-12, every split count 1-12, plus digit patterns ...4/...5/...6 at every position, plus a multiplication / percentage-of box over values -160..160 (thorough -1000..1000) at money and rate exponents (multipliers that are not dyadic fractions); random: operands stratified by bit length up to 2^51 with ties / near-ties constructed for 50% of cases (for multiplication also general ties a = 5*10^(e-1) * b^-1 mod 10^e for multipliers coprime to 10). Non-trivial: the exact result needed rounding (tie or not), or operands have different exponents, or an operand is negative, or precision is raised. Cases whose operands or exact intermediates exceed 2^52 units are discarded (outside the stated domain) and counted.",
 		"math/big integer arithmetic is the reference",
 		"domain restricted to |operand|,|intermediate| <= 2^52 units as the property states",
 	)
 	vh.Enum("box", enumBox, judge)
 	vh.Enum("boundary", enumBoundary, judge)
+	vh.Enum("mul_box", enumMulBox, judge)
 	vh.Rapid("random", 400_000, 16_000_000, genCase, judge)
 }
